@@ -50,10 +50,23 @@ def functions(src):
 
 def called_names(fn):
     out = set()
+    # a name bound inside the function (parameter, assignment, loop target, nested def) called as `name(...)` is a call of that local value,
+    # not of the module-level function or method that happens to have the same name
+    local = {a.arg for a in fn.args.posonlyargs + fn.args.args + fn.args.kwonlyargs}
+    if fn.args.vararg: local.add(fn.args.vararg.arg)
+    if fn.args.kwarg: local.add(fn.args.kwarg.arg)
+    for n in ast.walk(fn):
+        if isinstance(n, ast.Name) and isinstance(n.ctx, ast.Store):
+            local.add(n.id)
+        elif isinstance(n, (ast.FunctionDef, ast.AsyncFunctionDef)) and n is not fn:
+            local.add(n.name)
+            local |= {a.arg for a in n.args.posonlyargs + n.args.args + n.args.kwonlyargs}
     for n in ast.walk(fn):
         if isinstance(n, ast.Call):
             f = n.func
             if isinstance(f, ast.Name):
+                if f.id in local:
+                    continue
                 out.add(f.id)
             elif isinstance(f, ast.Attribute):
                 out.add(f.attr)
